@@ -248,7 +248,11 @@ _TRANSPARENT = ("core::clone::Clone::clone", "core::convert::Into::into", "core:
                 "core::pin::Pin::new", "core::future::future::Future::poll",
                 "tracing::instrument::Instrument::instrument", "core::pin::Pin::as_mut",
                 "core::option::Option::as_ref", "core::option::Option::as_mut",
-                "core::result::Result::as_ref", "core::option::Option::take")
+                "core::result::Result::as_ref", "core::option::Option::take",
+                # success-payload preserving adapters
+                "core::option::Option::ok_or", "core::option::Option::ok_or_else",
+                "core::result::Result::map_err", "core::result::Result::ok",
+                "core::option::Option::copied", "core::option::Option::cloned")
 
 _THIN_CACHE = {}
 
